@@ -343,6 +343,8 @@ def run_case(case):
             target = rng.randint(0, 4)
             # what the rest of the header looks like: a header with an unknown command word is typically garbage altogether (a misaligned stream)
             rest = rng.choice(["kept", "kept", "badsum", "longer", "garbage", "badmagic"])
+            if case["word"] % 5 == 0:
+                rest = "allzero"          # 24 zero bytes where a header is expected (a zero-filled transfer): command word 0 is as unknown as any other
 
             def before_emit(pkt, raw):
                 if state["done"] is not None:
@@ -361,6 +363,9 @@ def run_case(case):
                     a0, a1, dlen, dsum, magic = (rng.getrandbits(32) for _ in range(5))
                 elif rest == "badmagic":
                     magic = rng.getrandbits(32)
+                elif rest == "allzero":
+                    state["done"] = ("word", 0, pkt.cmd, rest)
+                    return b"\0" * 24 + raw[24:]
                 return struct.pack("<IIIIII", word, a0, a1, dlen, dsum, magic) + raw[24:]
             sim.before_emit = before_emit
             expect = "InvalidCommandError"
